@@ -2,9 +2,27 @@
    and the property predicate P (Spec.p_step, the predicate proved of the
    model in Proofs) on the implementation's own trace.  A second kind of
    case covers cachingDirectoryFetcher (Cache.v). *)
+From Coq Require Import NArith Ascii.
 From VF Require Import Common.Verdict Cas.Model Cas.Spec Cas.Cache.
 Open Scope string_scope.
 Open Scope list_scope.
+
+(* Compact notation of the case files for the hashes the generator uses: the
+   32 lower-case hexadecimal digits of a number. *)
+Definition hexdigit (n : N) : ascii :=
+  ascii_of_N (if (n <? 10)%N then 48 + n else 87 + n)%N.
+
+Fixpoint hex_n (k : nat) (n : N) (acc : string) : string :=
+  match k with
+  | O => acc
+  | S k' => hex_n k' (N.div n 16) (String (hexdigit (N.modulo n 16)) acc)
+  end.
+
+Definition H32 (n : N) : string := hex_n 32 n "".
+Definition DG (n : N) (sz : Z) : digest := (H32 n, sz).
+
+Example H32_example : H32 53253 = "0000000000000000000000000000d005".
+Proof. vm_compute. reflexivity. Qed.
 
 Inductive case :=
 | mkCase (c : cas) (b : blobs) (ops : list op) (outs : list out)
